@@ -686,7 +686,7 @@ func c14(w *core.World, r *core.Report) {
 	}
 
 	// ---- HANDLER-AGREE
-	r.Rule("HANDLER-AGREE", 12, "the three handlers read the same thing: each calls cacheClient.ReadCh inside a range over getStores(req) with Store = the loop variable, Owner = req.GetDatastore().GetOwner(), Priority = req.GetDatastore().GetPriority() and the handler's paths parameter; the JSON handler renders the whole view (ToJson / ToJsonIETF with onlyNewOrUpdated=false), choosing IETF exactly when asked.")
+	r.Rule("HANDLER-AGREE", 15, "the three handlers read the same thing: each calls cacheClient.ReadCh inside a range over getStores(req) (and can reach that call again from the 'channel closed' outcome of the receive: every selected store is read) with Store = the loop variable, Owner = req.GetDatastore().GetOwner(), Priority = req.GetDatastore().GetPriority() and the handler's paths parameter; the JSON handler renders the whole view (ToJson / ToJsonIETF with onlyNewOrUpdated=false), choosing IETF exactly when asked.")
 	for _, h := range hs {
 		rcs := core.CallsTo(h, "cache.Client.ReadCh")
 		if len(rcs) != 1 {
@@ -737,6 +737,39 @@ func c14(w *core.World, r *core.Report) {
 			}
 		})
 		r.Check(okPaths, "HANDLER-AGREE", core.Site(h, "reads the requested paths"), w.InstrPos(c), "the paths read are the paths requested")
+		// every selected store is read: when the channel of one store is drained (receive with ok == false) the read of
+		// the next store can still execute (the loop over the stores goes on; a break out of it drops the STATE store)
+		core.WithHost(h, func() {
+			for _, iff := range core.Ifs(h) {
+				v, neg := core.StripNot(iff.Cond)
+				ex, ok := v.(*ssa.Extract)
+				if !ok || ex.Index != 1 {
+					continue
+				}
+				fromRead := false
+				switch t := ex.Tuple.(type) {
+				case *ssa.Select:
+					for _, st := range t.States {
+						if st.Dir == types.RecvOnly && core.HasOrigin(st.Chan, c.Value()) {
+							fromRead = true
+						}
+					}
+				case *ssa.UnOp:
+					if t.Op == token.ARROW && core.HasOrigin(t.X, c.Value()) {
+						fromRead = true
+					}
+				}
+				if !fromRead {
+					continue
+				}
+				closed := iff.Block().Succs[1]
+				if neg {
+					closed = iff.Block().Succs[0]
+				}
+				again, _ := core.PathQuery{}.Reaches(closed, 0, func(in ssa.Instruction) bool { return in == ssa.Instruction(c) })
+				r.Check(again, "HANDLER-AGREE", core.Site(h, "next store read after a store is drained"), w.InstrPos(iff), "when the channel of one store is closed the handler must go on with the next store of getStores(req): leaving the loop returns CONFIG without STATE for DataType ALL")
+			}
+		})
 	}
 	{
 		h := hs[1]
@@ -796,6 +829,7 @@ func c15(w *core.World, r *core.Report) {
 		lit    *ssa.Alloc
 		event  int64
 		reason int64
+		send   ssa.CallInstruction // the Send itself (call is the helper's call site when the Send sits in a helper)
 	}
 	resolveAt := func(v ssa.Value, site *ssa.Call) ssa.Value {
 		if v == nil || site == nil {
@@ -873,7 +907,7 @@ func c15(w *core.World, r *core.Report) {
 					lit = al
 				}
 			}
-			si := sendInfo{call: c, site: site, lit: lit, event: -1, reason: -1}
+			si := sendInfo{call: c, send: c, site: site, lit: lit, event: -1, reason: -1}
 			if site != nil {
 				si.call = site
 			}
@@ -892,7 +926,7 @@ func c15(w *core.World, r *core.Report) {
 	}
 
 	// ---- BRACKET
-	r.Rule("BRACKET", 3, "a deviation cycle is bracketed: the loop that sends START is passed before any other stream send, and every path to a return passes the loop that sends END (dominance of the enclosing range instruction).")
+	r.Rule("BRACKET", 3, "a deviation cycle is bracketed: the loop that sends START is passed before any other stream send, and every path to a return passes the loop that sends END (dominance of the enclosing range instruction); every loop over the stream map serves EVERY stream: from each Send every path asks the range for the next stream again (a failed Send does not end the loop).")
 	rangeOf := func(c ssa.CallInstruction) *ssa.Range {
 		// the range whose Next supplies the stream the call sends on
 		for _, o := range core.Origins(core.CallRecv(c)) {
@@ -948,6 +982,22 @@ func c15(w *core.World, r *core.Report) {
 				r.Check(!core.CanFollow(endRg, s.call), "BRACKET", core.Site(run, "no report after END (reason=%d)", s.reason), w.InstrPos(s.call), "reports belong inside the bracket")
 			}
 		}
+	}
+
+	// every registered stream gets every message: a Send that fails does not end the loop over the streams (the Next
+	// of the range that supplies the stream is passed again on every path from the Send, until the range is exhausted)
+	servedSeen := map[ssa.CallInstruction]bool{}
+	for _, s := range sends {
+		rg := rangeOf(s.send)
+		if rg == nil || servedSeen[s.send] {
+			continue
+		}
+		servedSeen[s.send] = true
+		ok, _ := core.AlwaysAfterIn(run, s.send, func(in ssa.Instruction) bool {
+			n, isNext := in.(*ssa.Next)
+			return isNext && n.Iter == ssa.Value(rg)
+		})
+		r.Check(ok, "BRACKET", core.Site(run, "every stream is served (event=%d reason=%d)", s.event, s.reason), w.InstrPos(s.send), "a path from this Send leaves the loop over the deviation streams without asking for the next stream: when one watcher's stream refuses the message, the watchers later in the map iteration miss it (START / report / END)")
 	}
 
 	// ---- LITERAL-COMPLETE
